@@ -10,7 +10,9 @@ SPEC = dict(
     ],
     runs=[
         dict(module="toolsgod", pkg="./util/format", run="^TestVerifC20(Format|Determinism)$", timeout=240, timeout_thorough=3000),
-        dict(module="toolsgod", pkg="./util/stringx", run="^TestVerifC20", timeout=240, timeout_thorough=3000),
+        dict(module="toolsgod", pkg="./util/stringx", run="^TestVerifC20Stringx$", timeout=240, timeout_thorough=3000),
+        dict(module="toolsgod", pkg="./util/stringx", run="^TestVerifC20StringxRace$", race=True, timeout=240, timeout_thorough=1200),
+        dict(module="toolsgod", pkg="./util/format", run="^TestVerifC20FormatRace$", race=True, timeout=240, timeout_thorough=1200),
         dict(module="toolsgod", pkg="./config", run="^TestVerifC20", timeout=120, timeout_thorough=600),
     ],
 )
